@@ -148,7 +148,10 @@ def task(t):
                 cov['cores'] += 1
                 bad = [n for n in sx if not (isinstance(n, str) and n in names and names[n][1])]
                 if bad:
-                    viol('scope:name:stale', 'unsat core %s mentions %s; top-level names in scope: %s' % (sx, bad, sorted(n for n in names if names[n][1])), pos); break
+                    # the names that are in scope but label a nested occurrence of a term that is also asserted at top level
+                    nested_alias = all(isinstance(n, str) and n in names and not names[n][1] and names[n][0] in forms for n in bad)
+                    viol('scope:name:nested_alias' if nested_alias and not popped_unsat else 'scope:name:stale',
+                         'unsat core %s mentions %s; top-level names in scope: %s' % (sx, bad, sorted(n for n in names if names[n][1])), pos); break
                 core_forms = [a for a, n in tagged if n in sx]
                 background = [a for a, n in tagged if n is None]
                 if models(core_forms + background):
